@@ -429,8 +429,87 @@ pub fn install_panic_hook() {
     }));
 }
 
+/// Wall-clock stamp (ms since the first use, never 0) of the guarded call in progress, 0 when none is.
+pub static GUARDED_CALL_START_MS: std::sync::atomic::AtomicU64 = std::sync::atomic::AtomicU64::new(0);
+
+/// Line printed on stdout when the blocked-call watchdog ends the process (set by the replay entry point).
+pub static BLOCKED_EXIT_LINE: std::sync::OnceLock<String> = std::sync::OnceLock::new();
+
+pub fn wall_ms() -> u64 {
+    static T0: std::sync::OnceLock<std::time::Instant> = std::sync::OnceLock::new();
+    T0.get_or_init(std::time::Instant::now).elapsed().as_millis() as u64 + 1
+}
+
+/// Watchdog against calls that *block*: a library call that neither returns nor burns CPU (it sleeps, waits for a lock or
+/// retries with pauses) is a hang that the CPU budget of C01 cannot see. The thread samples the state of the main thread
+/// four times a second; when one guarded call has been open for 45 s, the main thread was asleep (state S in
+/// /proc/self/task/<tid>/stat - not runnable, not in disk wait) in at least 90 % of the samples (a retry loop with short
+/// pauses looks like that as well) and burnt less than 20 s of CPU, the process exits with `EXIT_BLOCKED_CALL`. A machine that is merely overloaded shows the thread as runnable (R).
+pub fn start_blocked_call_watchdog(exit_code: i32) {
+    let tid = unsafe { libc::syscall(libc::SYS_gettid) } as i64;
+    let main_clock = unsafe {
+        let mut cid: libc::clockid_t = 0;
+        libc::pthread_getcpuclockid(libc::pthread_self(), &mut cid);
+        cid
+    };
+    let _ = wall_ms();
+    std::thread::spawn(move || {
+        // (stamp of the call, wall ms at first sight, cpu ms at first sight, samples, samples asleep)
+        let mut cur: Option<(u64, u64, u64, u64, u64)> = None;
+        loop {
+            std::thread::sleep(std::time::Duration::from_millis(250));
+            let st = GUARDED_CALL_START_MS.load(std::sync::atomic::Ordering::Relaxed);
+            if st == 0 {
+                cur = None;
+                continue;
+            }
+            let mut ts = libc::timespec { tv_sec: 0, tv_nsec: 0 };
+            unsafe {
+                libc::clock_gettime(main_clock, &mut ts);
+            }
+            let cpu = ts.tv_sec as u64 * 1000 + ts.tv_nsec as u64 / 1_000_000;
+            let asleep = std::fs::read_to_string(format!("/proc/self/task/{tid}/stat"))
+                .ok()
+                .and_then(|s| s.rsplit_once(") ").map(|(_, r)| r.starts_with('S')))
+                .unwrap_or(false);
+            match &mut cur {
+                Some((s, w0, c0, n, ns)) if *s == st => {
+                    *n += 1;
+                    if asleep {
+                        *ns += 1;
+                    }
+                    if wall_ms().saturating_sub(*w0) > 45_000 && *ns * 10 >= *n * 9 && cpu.saturating_sub(*c0) < 20_000 {
+                        eprintln!("call watchdog: a single call has been blocked (asleep, not runnable) for 45 s");
+                        if let Some(line) = BLOCKED_EXIT_LINE.get() {
+                            println!("{line}");
+                            println!("  clause: time-budget   signature: time-budget:blocked");
+                            println!("  observed: a single call stayed blocked (asleep, not runnable, no CPU used) for 45 s");
+                        }
+                        std::process::exit(exit_code);
+                    }
+                }
+                _ => cur = Some((st, wall_ms(), cpu, 0, 0)),
+            }
+        }
+    });
+}
+
 /// Run `f`, turning a panic into `Err(Panic)`.
 pub fn guard<T>(f: impl FnOnce() -> T) -> Result<T, Panic> {
+    // (nested guards: the outermost one owns the stamp)
+    let outer = GUARDED_CALL_START_MS.load(std::sync::atomic::Ordering::Relaxed);
+    if outer == 0 {
+        GUARDED_CALL_START_MS.store(wall_ms(), std::sync::atomic::Ordering::Relaxed);
+    }
+    let r = guard_inner(f);
+    if outer == 0 {
+        GUARDED_CALL_START_MS.store(0, std::sync::atomic::Ordering::Relaxed);
+    }
+    r
+}
+
+/// `guard` without the call stamp: for harness-level closures that legitimately wait (a whole shard, child processes).
+pub fn guard_inner<T>(f: impl FnOnce() -> T) -> Result<T, Panic> {
     match catch_unwind(AssertUnwindSafe(f)) {
         Ok(v) => Ok(v),
         Err(_) => {
